@@ -31,7 +31,8 @@ LEVEL_TEXT = ("The tables the library runs with when it is imported with the wor
               "regression corpus plus generated scripts, and must return the valid-cache results and leave a table file equal to the "
               "fresh one."
               " If the declared grammar cannot be turned into tables at all (PLY rejects a rule function), that is reported as a violation of the regeneration clause."
-              " Cache-state sequences are also replayed inside ONE interpreter (whole workload per step, and exactly one parser per step); one stale state carries tables generated from an older grammar revision.")
+              " Cache-state sequences are also replayed inside ONE interpreter (whole workload per step, and exactly one parser per step); one stale state carries tables generated from an older grammar revision."
+              " Wave 5: a subclass that adds one grammar rule is constructed before / after / between plain DDLParser objects in every order of length <=3, in two rounds (its own table file absent, then present): every object must run with the tables of a fresh generation from ITS class's grammar and return its own results.")
 LEVEL_NOTE = ("The sandbox runs as root, so an unwritable package directory cannot be produced with chmod; read-only cache states are not "
               "enumerated. PLY itself (3.11, site-packages) is trusted to generate correct LALR tables from a grammar.")
 RULE = ("case = 'tables' (one exhaustive comparison) or a sequence of cache states; every step of every sequence is an execution of the "
